@@ -1051,6 +1051,10 @@ val hstep :
   ('a1 -> bits * cell0 list) -> (bits -> bits -> bool) -> bool -> nat ->
   (bits * 'a1) list -> 'a1 hop -> (bits * 'a1) list * 'a1 hobs
 
+val hdecode :
+  (bits -> cell0 list -> 'a1 option) -> bool -> nat -> (bits * 'a1) list ->
+  cell0 -> (bits * 'a1) list * bool
+
 val venc_val : n -> bits * cell0 list
 
 val vdec_val : bits -> cell0 list -> n option
@@ -4287,6 +4291,10 @@ val sx_rows : cell res -> sx
 val run_built : sx -> sx
 
 val run_built_key : sx -> sx
+
+val parsed_row : node list -> imm res list -> nat -> sx
+
+val run_parsed : sx -> sx
 
 val first_byte : bits -> n
 
